@@ -798,7 +798,7 @@ def c11_gen(ctx, intensive=False):
         k = rng.randrange(6)
         sid, seq, pl = rng.choice([1, 2, 9]), rng.randrange(0, 8), hexr(rng.choice([1, 3, 40]))
         if k == 0:
-            n = rng.choice([22, 23, 30, 64, 300, 2000])
+            n = rng.choice([22, 23, 30, 64, 300, 2000, 2000, 16640, 16641, 20000, 20475])   # up to what the 20480-byte receive buffer takes
             return 'R:%d:%s' % (conn, hexr(n)), 'random(%d)' % n
         if k == 1:
             n = rng.choice([0, 1, 13, 21])
